@@ -411,3 +411,37 @@ def flag_table(ctx):
     wt = db.func("codegen._GenerateRenderMethod.write_toplevel")
     imp = [a_ for a_ in line_sources(wt) if const(a_) and str(const(a_)).startswith("from mako import") and "filters" in str(const(a_))]
     ctx.check(bool(imp), "module-imports-filters", db.where(wt), "generated modules do not import mako.filters: the `filters.` names the flags denote are unbound", "from mako import ... filters ...")
+
+
+@rule("C02.filter-list-top-level", min_instances=1)
+def filter_list_top_level(ctx):
+    """the filters of `${x | f, g(a, (b, c))}` are the elements of the *outermost* tuple of the parsed list: the code that takes that tuple apart does not descend into the elements (a tuple inside a filter call's arguments is an argument, not two more filters)"""
+    db = ctx.db
+    al = db.func("ast.ArgumentList.__init__")
+    pm = db.mod("pyparser")
+    n = 0
+    # (a) a visitor class with visit_Tuple used by ArgumentList
+    used = {c.func.attr for c in walk_func(al) if isinstance(c, ast.Call) and isinstance(c.func, ast.Attribute) and dotted(c.func.value) == "pyparser"} | \
+           {c.func.id for g in db.with_helpers(al) for c in walk_func(g) if isinstance(c, ast.Call) and isinstance(c.func, ast.Name)}
+    for cd in pm.tree.body:
+        if isinstance(cd, ast.ClassDef) and cd.name in used:
+            vt = [m for m in cd.body if isinstance(m, ast.FunctionDef) and m.name == "visit_Tuple"]
+            if not vt:
+                continue
+            n += 1
+            deeper = [c for c in walk_func(vt[0]) if isinstance(c, ast.Call) and isinstance(c.func, ast.Attribute) and c.func.attr in ("generic_visit", "visit") and dotted(c.func.value) in ("self", "super()")]
+            ctx.check(not deeper, "visitor:%s" % cd.name, db.where(vt[0]),
+                      "%s.visit_Tuple goes on into the elements (`%s`): the elements of a tuple nested in a filter call's arguments are added to the list of filters" % (cd.name, src(deeper[0]) if deeper else ""),
+                      "visit_Tuple takes the elements of the tuple it is given and stops")
+    # (b) a function that collects `.elts`
+    for g in [f for f in pm.tree.body if isinstance(f, ast.FunctionDef) and f.name in used] + [g_ for g_ in db.with_helpers(al) if g_ is not al]:
+        elts = [a for a in walk_func(g) if isinstance(a, ast.Attribute) and a.attr == "elts"]
+        if not elts:
+            continue
+        n += 1
+        walks = [c for c in walk_func(g) if isinstance(c, ast.Call) and (dotted(c.func) or "").split(".")[-1] in ("walk", "iter_child_nodes")]
+        rec = [c for c in walk_func(g) if isinstance(c, ast.Call) and isinstance(c.func, ast.Name) and c.func.id == g.name]
+        ctx.check(not walks and not rec, "collector:%s" % g.name, db.where(g),
+                  "%s collects the elements of every tuple it finds while walking the whole expression (`%s`): the elements of a tuple nested in a filter call's arguments are added to the list of filters" % (g.name, src((walks or rec)[0]) if (walks or rec) else ""),
+                  "only the tuple at the top is taken apart")
+    ctx.require(n >= 1, "ArgumentList: the code that takes the parsed tuple apart was not found in pyparser (anchor)")
